@@ -33,6 +33,9 @@ pub enum Event {
     Cqe { user_data: u64, res: i32, flags: u32 },
     /// The thread pool job finished touching the operation.
     PoolDone { id: usize },
+    /// The thread pool job handed its completion entry back to the driver
+    /// (`delivered`) or found the driver gone.
+    PoolSent { id: usize, delivered: bool },
     /// The io_uring instance was closed.
     RingClosed,
 }
